@@ -108,14 +108,19 @@ StructTokens(F, pad) == SerList(F, Kids(F, 0), 0) \o Padding(pad)
 (* ===================== entries: sizes, offsets, bytes =================== *)
 (* e = [h, uoff, sf, sibfirst, codes, tags]: header, unit offset in its    *)
 (* section, form of DW_AT_sibling, attribute order, per-node code and tag. *)
+(* DW_AT_sibling forms: ref1/ref2/ref4/ref8/padded ref_udata (unit         *)
+(* relative), ref_addr (section relative, correct target) and - ill-       *)
+(* classed, to be ignored - data4 / udata carrying the target as a number. *)
 (* Every entry carries DW_AT_decl_line/DW_FORM_data1 = its node index.     *)
+UnitRefSibForms == {"ref1", "ref2", "ref4", "ref8", "refu2"}
 SibFormCode(sf) == CASE sf = "ref1" -> 17 [] sf = "ref2" -> 18 [] sf = "ref4" -> 19 [] sf = "ref8" -> 20
                      [] sf = "refu2" -> 21 [] sf = "refaddr" -> 16
+                     [] sf = "data4" -> 6 [] sf = "udata2" -> 15       \* wrong class: a number, not a reference
 SibSize(e) == CASE e.sf = "ref1" -> 1 [] e.sf = "ref2" -> 2 [] e.sf = "ref4" -> 4 [] e.sf = "ref8" -> 8
-                [] e.sf = "refu2" -> 2
+                [] e.sf = "refu2" -> 2 [] e.sf = "udata2" -> 2 [] e.sf = "data4" -> 4
                 [] e.sf = "refaddr" -> IF e.h.ver = 2 THEN e.h.asz ELSE WordSize(e.h)
 EncSib(e, target) ==
-    CASE e.sf = "refu2"   -> <<(target % 128) + 128, target \div 128>>      \* padded ULEB128
+    CASE e.sf \in {"refu2", "udata2"} -> <<(target % 128) + 128, target \div 128>>      \* padded ULEB128
       [] e.sf = "refaddr" -> Fixed(e.uoff + target, SibSize(e), e.h.le)
       [] OTHER            -> Fixed(target, SibSize(e), e.h.le)
 AttrSpecs(e, sib) ==
@@ -135,6 +140,8 @@ ExpAttrs(e, F, v, target) ==
     LET d == [name |-> 59, form |-> 11, kind |-> "Data1", v |-> FromNat(v, 8)]
         s == IF e.sf = "refaddr"
              THEN [name |-> 1, form |-> 16, kind |-> "DebugInfoRef", v |-> FromNat(e.uoff + target, 8)]
+             ELSE IF e.sf = "data4" THEN [name |-> 1, form |-> 6, kind |-> "Data4", v |-> FromNat(target, 8)]
+             ELSE IF e.sf = "udata2" THEN [name |-> 1, form |-> 15, kind |-> "Udata", v |-> FromNat(target, 8)]
              ELSE [name |-> 1, form |-> SibFormCode(e.sf), kind |-> "UnitRef", v |-> FromNat(target, 8)] IN
     IF ~F[v].sib THEN <<d>> ELSE IF e.sibfirst THEN <<s, d>> ELSE <<d, s>>
 (* the full token table and the end offset *)
@@ -148,7 +155,9 @@ Tokens(e, F, pad) ==
                            sib |-> 0, attrs |-> <<>>]
         ELSE [k |-> "e", node |-> t.node, cl |-> 0, d |-> t.d, off |-> ofs[i], tag |-> e.tags[t.node],
               hc |-> F[t.node].hc,
-              sib |-> IF F[t.node].sib /\ e.sf # "refaddr" THEN target ELSE 0,
+              (* only a unit reference can be used as it stands: DW_FORM_ref_addr is relative to the section *)
+              (* (the reader may ignore it or convert it correctly), a constant is not a reference at all   *)
+              sib |-> IF F[t.node].sib /\ e.sf \in UnitRefSibForms THEN target ELSE 0,
               attrs |-> ExpAttrs(e, F, t.node, target)]]
 EndOff(e, F, pad) == LET st == StructTokens(F, pad) IN OffsetsFrom(e, F, st, 1, HeaderSize(e.h))[Len(st) + 1]
 
